@@ -83,6 +83,10 @@ def main(argv=None):
     case = doc['case'] if isinstance(doc, dict) and 'case' in doc else doc
     try:
       vs = mod.replay(case)
+      if not vs:
+        # schedule-indexed cases were recorded in a long-running worker; the first run in a fresh process executes
+        # one-time initialisation lines that shift yield indices, so a quiet first run is repeated in the steady state
+        vs = mod.replay(case)
     except Exception:  # pylint: disable=broad-except
       traceback.print_exc()
       print('HARNESS-ERROR property=%s replay raised' % pid)
